@@ -140,7 +140,7 @@ pub fn check(ctx: &mut Ctx, cfg: &Cfg, how: How) {
 }
 
 fn hows(i: usize) -> How {
-    How { owned: i & 1 == 1, wrap: i & 2 == 2, probe: i & 4 == 4 }
+    crate::drive::hows(i)
 }
 
 const PADS4: [u8; 4] = [0, 4, 8, 252];
@@ -354,7 +354,7 @@ fn relational(ctx: &mut Ctx, shard: usize, nshards: usize, kind_prefixes: &[&str
         if k % nshards != shard || (ctx.scale < 0.5 && k % 7 != 0) || !kind_prefixes.iter().any(|p| c.kind_name().starts_with(p)) {
             continue;
         }
-        for h in 0..8 {
+        for h in 0..crate::drive::ROUTES {
             check(ctx, &c, hows(h));
         }
         ctx.class("relational-configuration");
